@@ -550,6 +550,20 @@ def main(argv):
             if hit:
                 reproduced = True
                 break
+        if not reproduced and vals is None:
+            # Kani's concrete playback printed no values (it does so for some traces). The failing run must still be
+            # shown against the real build before anything is reported: try the harness natively with all-zero
+            # inputs - if THE SAME assertion fails there, that is a concrete failing run (the failure does not depend
+            # on the symbolic values); otherwise the result stays inconclusive.
+            rep, err = replay_native(h, [], REPLAYS)
+            if rep is not None:
+                hit = [v for v in rep.values() if v["failed"] and any(any(d in m or m in d for d in descs) for m in v["messages"] if m)]
+                if hit:
+                    reproduced = True
+                    vals = []
+                    err = None
+                else:
+                    err = "solver returned no concrete values and the all-zero native run does not fail"
         rec = {
             "property": prop, "harness": h.full, "crate": h.crate, "source": h.src,
             "failed_checks": [{"description": d, "where": w} for d, w in unknown],
@@ -600,14 +614,20 @@ def write_evidence(prop, tier, seed, pairs, wall, inconclusive, violations, know
         })
     all_ok = not inconclusive and violations == 0 and pairs
     level = "proof" if all_ok else "other"
+    # CBMC properties that fail and are RECORDED known findings (known_findings.json) are not obligations of the
+    # claim - the property is known not to hold there; they are counted separately and named in the explanation
+    kf_failed = sum(r.checks_failed for _, r in pairs if r.status == "fail") if all_ok else 0
+    if all_ok:
+        obligations -= kf_failed
     cov = {
         "obligations": max(obligations, 1),
         "discharged": discharged if all_ok else min(discharged, max(obligations, 1)),
+        "known_finding_properties_failed": kf_failed,
         "checker_cmd": "cargo kani --harness <h> --exact " + " ".join(KANI_FLAGS + CBMC_FLAGS) + "  (one run per harness; ./check " + prop + " --tier " + tier + ")",
         "trusted_base": TRUSTED_BASE,
         "explanation": ("bounded: every CBMC property of every harness is SUCCESS for all values of the symbolic inputs within the stated bounds (unwinding assertions on); not an unbounded proof."
                         if all_ok else "not all harnesses were decided: " + "; ".join(f"{a}: {b}" for a, b in inconclusive)) +
-                       (f" Known findings reported: {sorted({k for k, _, _ in known})}." if known else ""),
+                       (f" Known findings reported: {sorted({k for k, _, _ in known})} - their {kf_failed} failing CBMC properties are NOT counted as obligations: the property is known not to hold for those inputs (known_findings.json)." if known else ""),
         "harnesses": harness_rows,
         "functions_encoded": sorted(functions),
         "source_sha256": sources,
